@@ -85,7 +85,8 @@ def validate_args(func):
     def validate(*args, **kw):
         sig = inspect.signature(func)
         bound = sig.bind(*args, **kw)
-        # 1. Convert all input parameters to Excel Types.
+        # 1. An error among the arguments is the result (the leftmost one),
+        #    before any conversion of the other arguments is attempted.
         for pname, value in list(bound.arguments.items()):
             if isinstance(value, xlerrors.ExcelError):
                 return value
@@ -100,19 +101,21 @@ def validate_args(func):
                 for item in flatten(value):
                     if isinstance(item, xlerrors.ExcelError):
                         return item
+        # 2. Convert all input parameters to Excel Types.
+        for pname, value in list(bound.arguments.items()):
             try:
                 bound.arguments[pname] = _validate(
                     sig.parameters[pname].annotation, value, pname)
             except xlerrors.ExcelError as err:
                 return err
-        # 2. Run the function to compute the result.
+        # 3. Run the function to compute the result.
         try:
             res = func(*bound.args, **bound.kwargs)
         except xlerrors.ExcelError as err:
             # Never crash on Excel errors as we want to store them as the cell
             # value.
             return err
-        # 3. Convert the result to an Excel type.
+        # 4. Convert the result to an Excel type.
         return _validate(sig.return_annotation, res, 'return')
 
     return validate
